@@ -87,3 +87,12 @@ contract("segments:JSONPathRecursiveDescentSegment._check_depth",
     raises_iff=[("JSONPathRecursionError", "is_container(node.value) and depth > self.env.max_recursion_depth")],
     props=["C18", "C13"],
     note="the depth test of the nondeterministic traversal: containers only, strictly above the configured limit (the same boundary _visit is proved to have)")
+
+contract("segments:_nondeterministic_children",
+    requires=["wf_node(node)"], unfold=["is_json"],
+    yields=["implies(is_arr(node.value), out == sel_wild(node))", "all(wf_node(n) for n in out)"],
+    loops={1: ["all(wf_node(n) for n in out)"],
+           2: ["out == wild_prefix(node, i2)", "all(wf_node(n) for n in out)"]},
+    raises=[], props=["C17", "C13"],
+    note="arrays: the children in document order (== the RFC wildcard order); objects: a shuffled order -- every output is a well-formed node "
+         "(that it is a permutation of the members is decided by the bounded C17 run)")
